@@ -33,10 +33,10 @@ TSelect ==
   /\ Ev.op = "select"
   /\ par' = [k |-> Ev.k, n |-> Ev.n, elitism |-> Ev.elitism, W |-> Ev.W]
   /\ Check("select returns without raising", Ev.exc = "")
+  /\ Check("one tournament of k draws per non-elite member", Len(Ev.draws) = Ev.n - Off /\ \A j \in 1..Len(Ev.draws) : Len(Ev.draws[j]) = Ev.k)
+  /\ Check("new population has exactly the configured size", Len(Ev.sel) = Ev.n)
   /\ Check("elite is a copy of an agent with the highest mean of the last W scores",
            ECand \cap Best(1..Len(P)) # {})
-  /\ Check("new population has exactly the configured size", Len(Sel) = Ev.n)
-  /\ Check("one tournament of k draws per non-elite member", Len(Ev.draws) = Ev.n - Off /\ \A j \in 1..Len(Ev.draws) : Len(Ev.draws[j]) = Ev.k)
   /\ Check("with elitism the first member is the elite", Ev.elitism => (Cand(1) \cap ECand # {} /\ Sel[1].idx = Ev.elite.idx /\ \E i \in ECand : P[i].idx = Ev.elite.idx))
   /\ Check("every other member is a copy of the best-ranked agent drawn for its tournament",
            \A j \in 1..Len(Ev.draws) :
